@@ -40,7 +40,7 @@ theorem deserializeChild_total (c : Bytes) : (deserializeChild c).isPanic = fals
           unfold slice; simp; omega
         have s5 : sliceFrom c (40 + 32) = .ok (c.drop 72) := by
           unfold sliceFrom; simp; omega
-        simp [l, s4, s5, Res.isPanic]
+        by_cases hk : isNibbles (c.drop 72) = true <;> simp [l, s4, s5, hk, Res.isPanic]
   · simp [h, Res.isPanic]
 
 theorem deserializeChildren_total (cs : List Bytes) : (deserializeChildren cs).isPanic = false := by
@@ -89,8 +89,10 @@ theorem deserializeNode_total (p : PBase) : (deserializeNode p).isPanic = false 
           | none => simp [Res.isPanic]
           | some s =>
             simp only
+            by_cases hk : isNibbles s.key = true
+            case neg => simp [hk, Res.isPanic]
             by_cases hl : s.value.length ≠ hashWithWeightLength
-            · simp [hl, Res.isPanic]
+            · simp [hk, hl, Res.isPanic]
             · have h40 : s.value.length = 40 := by simpa [hashWithWeightLength] using hl
               have s1 : slice s.value 0 32 = .ok ((s.value.take 32).drop 0) := by
                 unfold slice; simp; omega
@@ -98,7 +100,7 @@ theorem deserializeNode_total (p : PBase) : (deserializeNode p).isPanic = false 
                 unfold sliceFrom; simp; omega
               have s3 : uint64At (s.value.drop 32) = .ok (be64Dec (s.value.drop 32)) := by
                 unfold uint64At; simp; omega
-              simp [hl, s1, s2, s3, Res.isPanic]
+              simp [hk, hl, s1, s2, s3, Res.isPanic]
 
 /-- `verifyProof`: no panic for any pair list (null pairs included: fix 990a210), block number and hash function -/
 theorem verifyProof_total (H : Bytes → Bytes) (ps : List PairD) (b : Nat) : (verifyProof H ps b).isPanic = false := by
